@@ -19,10 +19,12 @@ package interceptor
 //@ # Attributes.GetRTPHeader parses raw, or returns the header an inner interceptor cached for this packet.
 //@ # Assumed (not proved): a cached header was parsed from the same bytes, so in both cases the header lies within raw.
 //@ func (Attributes).GetRTPHeader
-//@   trusted attributes travel with their packet: a cached header was parsed from these bytes
 //@   modifies mem Attributes
-//@   ensures header_within_raw: result1 == nil ==> result0 != nil && result0.MarshalSize() <= len(raw)
+//@   # assumed: attributes travel with their packet, so a cached header was parsed from these bytes
+//@   ensures_assumed header_within_raw: result1 == nil ==> result0 != nil && result0.MarshalSize() <= len(raw)
 //@   ensures failed: result1 != nil ==> result0 == nil
+//@   # proved: a header that failed to parse is not left in the cache for the next interceptor to trust
+//@   ensures failed_parse_caches_nothing: result1 != nil ==> (has(a, rtpHeaderKey) <==> washas(a, rtpHeaderKey))
 //@
 //@ # ---- Chain (property C01): every lifecycle call is delivered to each member once; the range loop visits every member once
 //@ func (*Chain).UnbindLocalStream
